@@ -53,6 +53,8 @@ def run_rotate(ctx, case):
     forms = [("rotation_angles", lambda: cryomap.rotate(vol.copy(), rotation_angles=list(ang))),
              ("rotation_angles_array", lambda: cryomap.rotate(vol.copy(), rotation_angles=np.array(ang))),
              ("rotation_transposed", lambda: cryomap.rotate(vol.copy(), rotation=rot_from_code(case["r"]), transpose_rotation=True))]
+    ivol = np.rint(vol).astype(np.int16)          # the same kind of map stored as integers
+    forms.append(("rotation_angles_int16", lambda: cryomap.rotate(ivol.copy(), rotation_angles=list(ang))))
     scale = float(np.max(np.abs(vol)))
     for name, fn in forms:
         out, err = core.call_guarded(fn)
@@ -64,8 +66,9 @@ def run_rotate(ctx, case):
         if out.shape != tuple(dims):
             ctx.fail("C14_ActiveConvention", "rotate returned shape %s for a %s map" % (out.shape, dims), case, sig)
             continue
-        bad = [(d, s, float(out[tuple(d)]), float(vol[tuple(s)])) for d, s in case["pairs"]
-               if not abs(out[tuple(d)] - vol[tuple(s)]) <= SNAP * scale]
+        ref = ivol if name.endswith("int16") else vol
+        bad = [(d, s, float(out[tuple(d)]), float(ref[tuple(s)])) for d, s in case["pairs"]
+               if not abs(out[tuple(d)] - ref[tuple(s)]) <= SNAP * scale]
         if bad:
             d, s, got, want = bad[0]
             ctx.fail("C14_ActiveConvention", "%s: %d of %d decided voxels differ; e.g. result%s = %r, the specification says "
@@ -85,6 +88,12 @@ def run_place(ctx, case):
     for cell in case["tmpl"]["cells"]:
         idx = tuple(c + v for v in cell["o"])
         tmpl[idx] = rng.choice([1.0, 0.5, 7.0, 0.11, 250.0]) if cell["hi"] else rng.choice([0.05, 0.09, -1.0, 0.0999])
+    tkind = (case["variant"] // 7) % 4          # storage type of the template: float64, int8, int16, bool
+    if tkind:
+        for cell in case["tmpl"]["cells"]:
+            idx = tuple(c + v for v in cell["o"])
+            tmpl[idx] = (1 if tkind == 3 else rng.choice([1, 1, 7, 100])) if cell["hi"] else (0 if tkind == 3 else rng.choice([0, -1]))
+        tmpl = tmpl.astype([None, np.int8, np.int16, bool][tkind])
     poses = case["poses"]
     n = len(poses)
     feature = ["object_id", "class", "geom1", "object_id"][case["variant"] % 4]
@@ -117,7 +126,8 @@ def run_place(ctx, case):
         return cryomap.place_object(tmpl.copy(), motl, volume_shape=list(cdims), feature_to_color=feature)
 
     out, err = core.call_guarded(call)
-    sig = {"op": "place_object", "poses": "one" if n == 1 else "many", "index": index_kind}
+    sig = {"op": "place_object", "poses": "one" if n == 1 else "many", "index": index_kind,
+           "template": ["float64", "int8", "int16", "bool"][tkind]}
     if err is not None:
         ctx.fail("call_raises", err, case, sig)
     else:
@@ -288,7 +298,7 @@ def replay(ctx, case):
     if k in HANDLERS:
         spec_expected(ctx, case)
         HANDLERS[k](ctx, case)
-    elif k in ("l3_rotblob", "l3_sym"):
+    elif k in ("l3_rotblob", "l3_sym", "l3_dtype"):
         run_l3(ctx, [case], name="replay")
     else:
         raise core.MachineryError("unknown case kind %r" % k)
@@ -388,13 +398,66 @@ def sym_event(case):
     return [ev]
 
 
+DTYPES = ["float64", "float32", "int16", "int8", "uint8", "int32"]
+
+
+def gen_dtype(rng, idx):
+    S = rng.choice([10, 12, 14, 16])
+    boxes = []
+    for _ in range(rng.randint(2, 4)):      # an asymmetric union of small boxes well inside the template
+        lo = [rng.randint(3, S - 6) for _ in range(3)]
+        hi = [min(S - 3, l + rng.randint(1, 4)) for l in lo]
+        boxes.append([lo, hi, rng.choice([1, 1, 3, 20, 100])])
+    binary = rng.random() < 0.5
+    poses = []
+    for i in range(rng.randint(1, 5)):
+        poses.append({"pos": [rng.randint(2, 30) for _ in range(3)],
+                      "ang": [rng.uniform(-180, 180), rng.uniform(0, 180), rng.uniform(-180, 180)], "colour": i + 1})
+    return {"kind": "l3_dtype", "id": idx, "S": S, "boxes": boxes, "binary": binary, "poses": poses,
+            "ang": [rng.uniform(-180, 180), rng.uniform(5, 175), rng.uniform(-180, 180)], "label_k": rng.randrange(1000)}
+
+
+def dtype_event(case):
+    from cryocat import cryomap, cryomotl
+    S = case["S"]
+    tm = np.zeros((S, S, S))
+    for lo, hi, val in case["boxes"]:
+        tm[lo[0]:hi[0] + 1, lo[1]:hi[1] + 1, lo[2]:hi[2] + 1] = 1 if case["binary"] else val
+    types = DTYPES + (["bool"] if case["binary"] else [])
+    rng_v = float(tm.max() - tm.min()) or 1.0
+    n = len(case["poses"])
+    cols = motlutil.empty_rows(n)
+    for i, p in enumerate(case["poses"]):
+        cols["x"][i], cols["y"][i], cols["z"][i] = p["pos"]
+        cols["phi"][i], cols["theta"][i], cols["psi"][i] = p["ang"]
+        cols["tomo_id"][i] = 1
+        cols["subtomo_id"][i] = i + 1
+        cols["object_id"][i] = p["colour"]
+    motl = cryomotl.Motl(motlutil.vary_index(motlutil.df_from_cols(cols), case["label_k"]))
+    ev = {"kind": "dtype", "rot": [], "place": [], "stamped": 0}
+    ref_rot = ref_place = None
+    for t in types:
+        arr = tm.astype(t)
+        out = np.asarray(cryomap.rotate(arr.copy(), rotation_angles=list(case["ang"])), dtype=float)
+        cont = np.asarray(cryomap.place_object(arr.copy(), motl, volume_shape=(32, 32, 32)), dtype=float)
+        if ref_rot is None:
+            ref_rot, ref_place = out, cont
+            ev["stamped"] = int(np.count_nonzero(cont))
+        if out.shape != ref_rot.shape or not np.all(np.isfinite(out)):
+            ev["rot"].append(-1)
+        else:
+            ev["rot"].append(int(min(999999999, round(float(np.max(np.abs(out - ref_rot))) / rng_v * 1e6))))
+        ev["place"].append(int(np.count_nonzero(cont != ref_place)) if cont.shape == ref_place.shape else -1)
+    return [ev]
+
+
 def run_l3(ctx, cases, name="trace"):
     traces = []
     for case in cases:
-        fn = rotblob_event if case["kind"] == "l3_rotblob" else sym_event
+        fn = {"l3_rotblob": rotblob_event, "l3_dtype": dtype_event}.get(case["kind"], sym_event)
         evs, err = core.call_guarded(fn, case)
         if err is not None:
-            ctx.fail("call_raises", err, case, {"op": "rotate" if case["kind"] == "l3_rotblob" else "symmetrize_volume"})
+            ctx.fail("call_raises", err, case, {"op": {"l3_rotblob": "rotate", "l3_dtype": "rotate/place_object"}.get(case["kind"], "symmetrize_volume")})
             evs = []
         traces.append({"id": case["id"], "ev": evs})
         ctx.ran(case)
@@ -403,7 +466,7 @@ def run_l3(ctx, cases, name="trace"):
     with open(path, "w") as fh:
         for t in traces:
             fh.write(json.dumps(t) + "\n")
-    cfgt = ("SPECIFICATION TraceSpec\nCONSTANTS\n ComTol = 2500\n BackMin = 980000\n SymMin = 990000\n DensTol = 50000\n"
+    cfgt = ("SPECIFICATION TraceSpec\nCONSTANTS\n DtypeTol = 1000\n ComTol = 2500\n BackMin = 980000\n SymMin = 990000\n DensTol = 50000\n"
             "CONSTRAINT Report\n")
     res = ctx.tlc("MapGeomTrace", cfgt, name=name, env={"TRACE_FILE": path}, workers=1)
     verdicts = {v["tid"]: v for v in res.tagged.get("VERDICT", [])}
@@ -413,7 +476,8 @@ def run_l3(ctx, cases, name="trace"):
         v = verdicts[i + 1]
         if not v["ok"]:
             ev = traces[i]["ev"][v["step"] - 1]
-            sig = {"op": "rotate", "form": "real"} if ev["kind"] == "rotblob" else {"op": "symmetrize_volume", "n": ev["n"]}
+            sig = {"op": "rotate", "form": "real"} if ev["kind"] == "rotblob" else \
+                  ({"op": "rotate/place_object", "form": "storage_type"} if ev["kind"] == "dtype" else {"op": "symmetrize_volume", "n": ev["n"]})
             ctx.fail(v["clause"], "event rejected by MapGeomTrace: %s" % json.dumps(ev), case, sig)
     return res, traces
 
@@ -431,6 +495,8 @@ def run(ctx):
         "face voxels of a rotated box are not decided (they can leave the interpolation domain by rounding)",
         "placement: integral complete positions and even template boxes (the property does not fix rounding / odd centring)",
         "windows: integral centres and even shapes; crop only for windows inside the volume, pad only for even sizes",
+        "a map is its values, not its storage type: integer-valued maps / templates stored as int8, int16, int32, uint8, bool, "
+        "float32 must rotate and stamp like their float64 copy (deviation <= 1e-3 of the value range, identical containers)",
         "interpolation accuracy is bounded, not decided: centre of mass within 0.25 voxel, inverse-rotation correlation >= 0.98,"
         " symmetrised-map invariance correlation >= 0.99, total density within 5 %",
     ]
@@ -483,4 +549,5 @@ def run(ctx):
     nrot, nsym = ctx.pick(60, 2500), ctx.pick(40, 1500)
     cases = [gen_rotblob(ctx.rng, k + 1, big) for k in range(nrot)]
     cases += [gen_sym(ctx.rng, nrot + k + 1, big) for k in range(nsym)]
+    cases += [gen_dtype(ctx.rng, nrot + nsym + k + 1) for k in range(ctx.pick(40, 1200))]
     run_l3(ctx, cases)
